@@ -1,21 +1,21 @@
 SPECIFICATION Spec
 CONSTANT Cfg <- MCCfg1x
 CONSTANT MaxWalls = 2
-CONSTANT Limits = {1, 2, 3}
-CONSTANT PostSteps = 2
+CONSTANT Limits = {1, 2}
+CONSTANT PostSteps = 1
 CONSTRAINT Bounded
 INVARIANT TypeOK
 INVARIANT InitWellFormed
 INVARIANT Protocol
-INVARIANT LegalIffSomethingMoves
 INVARIANT PhysOK
-INVARIANT Total
-INVARIANT PushRule
 INVARIANT RewardRange
 INVARIANT BonusIffSolved
 INVARIANT SolvedEnds
 INVARIANT EndsExactlyAtLimit
 INVARIANT ObsFaithful
 PROPERTY InvalidNoEffect
+PROPERTY LegalIffSomethingMoves
 PROPERTY Conserved
+PROPERTY PushRule
+VIEW View
 CHECK_DEADLOCK FALSE
